@@ -19,6 +19,7 @@
  *   out N                write N bytes ('x') to stdout, report short/failed writes on stderr
  *   report fds|creds|rlimits|ns|sec|cwd|uts|pid|mounts
  *   setsid | setpgid | daemon
+ *   exec                 the rest of the current block is run by a fresh image of this program (execve of /proc/self/exe)
  */
 #define _GNU_SOURCE
 #include <errno.h>
@@ -283,6 +284,16 @@ static void run(int from, int to) {
                 char *m = mmap(NULL, 4096, PROT_READ | PROT_WRITE, MAP_SHARED, fd, 0);
                 if (m != MAP_FAILED) m[0] = 1; /* beyond EOF of an empty file -> SIGBUS */
             }
+        }
+        else if (!strcmp(c, "exec")) { /* exec: the rest of the current block is run by a fresh image of this program */
+            static char rest[1 << 16];
+            size_t off = 0;
+            rest[0] = 0;
+            for (int k = i + 1; k < to; k++) off += snprintf(rest + off, sizeof rest - off, "%s%s", k > i + 1 ? ";" : "", toks[k]);
+            char *argv2[] = {"probe", rest, NULL};
+            execv("/proc/self/exe", argv2);
+            say("exec failed %d\n", errno);
+            _exit(111);
         }
         else if (!strcmp(c, "sleep")) { struct timespec ts = {num(a[1]) / 1000, (num(a[1]) % 1000) * 1000000L}; while (nanosleep(&ts, &ts) && errno == EINTR) ; }
         else if (!strcmp(c, "spin")) spin_ms(num(a[1]));
